@@ -11,6 +11,7 @@ for ALL op sequences (induction on the list) and ALL schedules of ANY number of 
 schedule).
 -/
 import MetricsVerif.Proofs.Registry
+import MetricsVerif.Proofs.RegistryClear
 import MetricsVerif.Generated.SourceFacts
 
 namespace MetricsVerif.C06
@@ -520,7 +521,201 @@ theorem sweep_only_removes (c : LCall K) (hold : Bool) (others : List Lock) (fue
     (acc : List (K × Nat)) (kd : Kind) (idx : Nat) : Sub (sweepRun c hold others fuel r acc kd idx).1 r :=
   sweepRun_sub c hold others fuel r acc kd idx
 
+/-! ### a completed `clear()` has removed every entry older than its call — all schedules -/
+
+/-- **a completed `clear()` has removed every entry older than its call.**  Thread `tid` stands at the beginning of a
+    `clear()` call (`pc = sweep counter 0`; `rest` are its calls after it) in ANY state `s0` of the lock-aware machine
+    with well-formed shard vectors; `n0 = s0.reg.next` storages have been made so far, so every entry registered at
+    that moment carries a storage id `< n0` and every later one an id `≥ n0`.  Then after ANY schedule of ANY number of
+    threads running creators / getters / deleters / other sweeps, with callbacks parked under shard locks and `clear`
+    waiting for them as often as it must: once the call has returned (the thread has moved past it), no entry with
+    a storage id `< n0` is registered under any kind — everything older than the call is gone, and since storage ids
+    are never handed out twice (`Inv.fresh`) none of it can come back.  Needs no assumption on the keys. -/
+theorem clear_removes_older (ko : KeyOps K) (s0 : LSys K) (hlen : Lens s0.reg) (tid : Nat) (t0 : LThread K)
+    (rest : List (LCall K)) (ht0 : s0.threads[tid]? = some t0) (hcalls : t0.calls = LCall.clear :: rest)
+    (hpc : t0.pc = .sweep .counter 0) (sched : List Nat) (t1 : LThread K)
+    (ht1 : (lrun ko s0 sched).threads[tid]? = some t1) (hdone : t1.calls.length ≤ rest.length)
+    (kd : Kind) (e : Entry K) (he : e ∈ entries (lrun ko s0 sched).reg kd) : s0.reg.next ≤ e.id := by
+  have h0 : ClearInv ko s0.reg.next rest tid s0 :=
+    ⟨hlen, Nat.le_refl _, t0, ht0, Or.inr ⟨hcalls, .counter, 0, hpc, Nat.succ_pos _, by
+      intro kd i e _ h; simp [walkPos, Kind.rank] at h⟩⟩
+  have h1 := clearInv_lrun sched s0 h0
+  obtain ⟨t, ht, hcase⟩ := h1.thr
+  rw [ht1] at ht
+  cases ht
+  rcases hcase with ⟨_, hnb⟩ | ⟨hc, _⟩
+  · obtain ⟨i, hat⟩ := (mem_entries _ kd e).mp he
+    refine hnb kd i e hat ?_
+    have hi := at_lt hat
+    rw [h1.lens kd] at hi
+    unfold walkPos
+    cases kd <;> simp only [Kind.rank] <;> omega
+  · rw [hc, List.length_cons] at hdone
+    omega
+
+/-- the same from a fresh registry: `pre` is any schedule up to the moment the call begins, `post` any schedule after
+    which the call has returned -/
+theorem clear_removes_older_reachable (ko : KeyOps K) (count : Nat) (hc : 0 < count) (progs : List (List (LCall K)))
+    (pre post : List Nat) (tid : Nat) (t0 : LThread K) (rest : List (LCall K))
+    (ht0 : (lrun ko (LSys.init count progs) pre).threads[tid]? = some t0) (hcalls : t0.calls = LCall.clear :: rest)
+    (hpc : t0.pc = .sweep .counter 0) (t1 : LThread K)
+    (ht1 : (lrun ko (LSys.init count progs) (pre ++ post)).threads[tid]? = some t1)
+    (hdone : t1.calls.length ≤ rest.length) (kd : Kind) (e : Entry K)
+    (he : e ∈ entries (lrun ko (LSys.init count progs) (pre ++ post)).reg kd) :
+    (lrun ko (LSys.init count progs) pre).reg.next ≤ e.id := by
+  have happ : lrun ko (LSys.init count progs) (pre ++ post) = lrun ko (lrun ko (LSys.init count progs) pre) post := by
+    simp [lrun, List.foldl_append]
+  rw [happ] at ht1 he
+  exact clear_removes_older ko _ (lrun_lens pre _ (new_lens count hc)) tid t0 rest ht0 hcalls hpc post t1 ht1 hdone kd e he
+
+/-- … said on the entries themselves: nothing that was registered when `clear()` was called is registered when it
+    has returned (under the registry invariant storages are identified by their ids) -/
+theorem clear_removes_entries_of_call_time {ko : KeyOps K} (s0 : LSys K) (hinv : Inv ko s0.reg) (tid : Nat)
+    (t0 : LThread K) (rest : List (LCall K)) (ht0 : s0.threads[tid]? = some t0) (hcalls : t0.calls = LCall.clear :: rest)
+    (hpc : t0.pc = .sweep .counter 0) (sched : List Nat) (t1 : LThread K)
+    (ht1 : (lrun ko s0 sched).threads[tid]? = some t1) (hdone : t1.calls.length ≤ rest.length)
+    (kd0 kd : Kind) (e0 e : Entry K) (he0 : e0 ∈ entries s0.reg kd0) (he : e ∈ entries (lrun ko s0 sched).reg kd) :
+    e.id ≠ e0.id := by
+  obtain ⟨i, hat⟩ := (mem_entries _ kd0 e0).mp he0
+  have h1 := hinv.fresh kd0 i e0 hat
+  have h2 := clear_removes_older ko s0 hinv.len tid t0 rest ht0 hcalls hpc sched t1 ht1 hdone kd e he
+  omega
+
+/-! ## two hashes: what lookups use and what a new entry is filed under (`Model/RegistryStore.lean`) -/
+
+theorem writeSectionS_coherent (so : StoreOps K) (hcoh : ∀ k, so.storeHash k = so.ko.hash k) (r : Reg K) (kd : Kind)
+    (k : K) : writeSectionS so r kd k = writeSection so.ko r kd k := by
+  cases h : lookup so.ko (r.shard kd (so.ko.hash k)) (so.ko.hash k) k <;> simp [writeSectionS, writeSection, h, hcoh]
+
+theorem stepS_coherent (so : StoreOps K) (hcoh : ∀ k, so.storeHash k = so.ko.hash k) (r : Reg K) (op : Op K) :
+    stepS so r op = step so.ko r op := by
+  cases op with
+  | goc kd k =>
+    cases h : readSection so.ko r kd k <;>
+      simp [stepS, step, getOrCreateS, getOrCreate, h, writeSectionS_coherent so hcoh]
+  | _ => rfl
+
+/-- **one hash, one model**: for a key type whose entries are filed under the hash they are looked up with (what
+    `src_shipped_keys_one_hash` pins for `metrics::Key` and `DefaultHashable<H>`, and what holds for every key type once
+    the insertion is `insert_with_hasher(hash, …, |k| k.hashable())`) the two-hash registry IS the registry of
+    `Model/Registry.lean`: every theorem above speaks about it -/
+theorem stored_hash_coherent_same (so : StoreOps K) (hcoh : ∀ k, so.storeHash k = so.ko.hash k) (ops : List (Op K)) :
+    ∀ r, runOpsS so r ops = runOps so.ko r ops := by
+  induction ops with
+  | nil => intro r; rfl
+  | cons op ops ih =>
+    intro r
+    simp only [runOpsS, runOps, stepS_coherent so hcoh, ih]
+
+/-- the provable part of "at most one entry per key" for the registry as it files entries today -/
+theorem at_most_one_entry_partial {so : StoreOps K} (L : KeyLaws so.ko) (hcoh : ∀ k, so.storeHash k = so.ko.hash k)
+    (count : Nat) (hc : 0 < count) (ops : List (Op K)) (hops : ∀ op ∈ ops, Respects so.ko op) (kd : Kind) (k : K) :
+    (entries (runOpsS so (Reg.new count) ops).1 kd).countP (fun e => so.ko.eqv k e.key) ≤ 1 := by
+  rw [stored_hash_coherent_same so hcoh]
+  exact at_most_one_entry L ⟨count, ops, hc, hops, rfl⟩ kd k
+
+def isGoc : Op K → Bool
+  | .goc _ _ => true
+  | _ => false
+
+/-- with split hashes (`Split`: the hash an entry is filed under is never the lookup hash of an equal key) one step
+    from a state whose entries are all filed that way: a get-or-create ALWAYS makes a new storage, `get_*` finds
+    nothing, `delete_*` reports `false` and removes nothing — whatever is registered -/
+theorem two_hash_step {so : StoreOps K} (hsp : Split so) (r : Reg K) (hlen : Lens r) (hst : StoredBy so r) (op : Op K) :
+    (stepS so r op).1.next = r.next + (if isGoc op then 1 else 0)
+    ∧ (∀ kd k, op = .goc kd k → (stepS so r op).2 = .id r.next)
+    ∧ (∀ kd k, op = .get kd k → (stepS so r op).2 = .opt none)
+    ∧ (∀ kd k, op = .delete kd k → stepS so r op = (r, .bool false)) := by
+  have hmiss := lookup_none_of_split hsp r hlen hst
+  cases op with
+  | goc kd k =>
+    have h1 : readSection so.ko r kd k = none := by simp [readSection, hmiss kd k]
+    refine ⟨?_, ?_, (by intro _ _ h; cases h), (by intro _ _ h; cases h)⟩
+    · simp [stepS, getOrCreateS, h1, writeSectionS, hmiss kd k, isGoc]
+    · intro _ _ _
+      simp [stepS, getOrCreateS, h1, writeSectionS, hmiss kd k]
+  | get kd k =>
+    refine ⟨by simp [stepS, step, isGoc], (by intro _ _ h; cases h), ?_, (by intro _ _ h; cases h)⟩
+    intro _ _ _
+    simp [stepS, step, getExisting, readSection, hmiss kd k]
+  | delete kd k =>
+    have : delete so.ko r kd k = (r, false) := by simp [delete, hmiss kd k]
+    refine ⟨by simp [stepS, step, this, isGoc], (by intro _ _ h; cases h), (by intro _ _ h; cases h), ?_⟩
+    intro _ _ _
+    simp [stepS, step, this]
+  | retain kd f =>
+    exact ⟨by simp [stepS, step, retain, isGoc], (by intro _ _ h; cases h), (by intro _ _ h; cases h), (by intro _ _ h; cases h)⟩
+  | clear =>
+    exact ⟨by simp [stepS, step, clear, isGoc], (by intro _ _ h; cases h), (by intro _ _ h; cases h), (by intro _ _ h; cases h)⟩
+  | visit kd =>
+    exact ⟨by simp [stepS, step, isGoc], (by intro _ _ h; cases h), (by intro _ _ h; cases h), (by intro _ _ h; cases h)⟩
+  | handles kd =>
+    exact ⟨by simp [stepS, step, isGoc], (by intro _ _ h; cases h), (by intro _ _ h; cases h), (by intro _ _ h; cases h)⟩
+
+/-- **N get-or-creates, N storages**: with split hashes, after ANY op sequence from a fresh registry the storage
+    factory has been called once per `get_or_create_*` CALL (not once per key lifetime, `storages_created`) — for one
+    key registered N times there are N storages -/
+theorem two_hash_every_goc_creates {so : StoreOps K} (hsp : Split so) (ops : List (Op K)) :
+    ∀ r, Lens r → StoredBy so r → (runOpsS so r ops).1.next = r.next + ops.countP isGoc := by
+  induction ops with
+  | nil => intro r _ _; simp [runOpsS]
+  | cons op ops ih =>
+    intro r hlen hst
+    obtain ⟨hl', hs'⟩ := stepS_keeps so r hlen hst op
+    have h1 := (two_hash_step hsp r hlen hst op).1
+    simp only [runOpsS, ih _ hl' hs', h1, List.countP_cons]
+    omega
+
+theorem two_hash_every_goc_creates_fresh {so : StoreOps K} (hsp : Split so) (count : Nat) (hc : 0 < count)
+    (ops : List (Op K)) : (runOpsS so (Reg.new count) ops).1.next = ops.countP isGoc := by
+  have := two_hash_every_goc_creates hsp ops (Reg.new count) (new_lens count hc) (new_storedBy so count)
+  simpa [Reg.new] using this
+
 /-! ## source facts (tools/extract.py, regenerated from the repository on every run) -/
+
+/-- **the insertion call is one the model follows, lookups use the precomputed hash**: every `get_or_create_*` fills
+    the vacant raw entry by a call `Model/RegistryStore.insertViaOf` knows (today `or_insert_with`: filed under the MAP
+    hasher's hash), every raw-entry lookup in the file is `from_key_hashed_nocheck(hash, key)` and there is no other
+    kind of lookup, and `hash` is `key.hashable()` in all three shard selectors -/
+theorem src_insert_path :
+    (insertViaOf Generated.reg_goc_insert_calls).isSome = true
+    ∧ Generated.reg_lookup_args.all (· == "hash, key") = true
+    ∧ Generated.reg_lookup_args.length = 15
+    ∧ Generated.reg_other_lookups = []
+    ∧ Generated.reg_shard_hash_exprs = ["key.hashable()", "key.hashable()", "key.hashable()"] := by decide
+
+/-- **the key types the crate ships have ONE hash**: the shard maps hash with `BuildHasherDefault<RegistryHasher>`,
+    `RegistryHasher = KeyHasher`; `Hashable for Key` and `Hashable for DefaultHashable<H>` both declare
+    `type Hasher = KeyHasher` and compute `hashable()` by `KeyHasher` (memoised for `Key`: C03); the trait's default
+    `hashable()` runs `Self::Hasher` over `impl Hash` (so a third-party key with another `Hasher` has two hashes) -/
+theorem src_shipped_keys_one_hash :
+    Generated.reg_registry_hasher = "KeyHasher"
+    ∧ Generated.reg_map_type = "HashMap<K, V, BuildHasherDefault<RegistryHasher>>"
+    ∧ Generated.hashable_impls
+        = [("Key", "KeyHasher", "{ self.get_hash() }"),
+           ("DefaultHashable<H>", "KeyHasher",
+            "{ let mut hasher = KeyHasher::default(); self.hash(&mut hasher); hasher.finish() }")]
+    ∧ Generated.hashable_default_body
+        = "{ let mut hasher = Self::Hasher::default(); self.hash(&mut hasher); hasher.finish() }" := by decide
+
+/-- **a poisoned shard is recovered, never skipped**: each of the 21 lock calls of the file is directly followed by
+    `.unwrap_or_else(PoisonError::into_inner)`; nothing matches on a lock result or asks `is_poisoned` -/
+theorem src_poison_recovered :
+    Generated.reg_lock_recover.all (· == ".unwrap_or_else(PoisonError::into_inner)") = true
+    ∧ Generated.reg_lock_recover.length
+        = Generated.reg_clear_locks.length + (Generated.reg_visit_locks.map List.length).sum
+          + (Generated.reg_retain_locks.map List.length).sum + (Generated.reg_delete_locks.map List.length).sum
+          + (Generated.reg_get_locks.map List.length).sum + (Generated.reg_goc_locks.map List.length).sum
+    ∧ Generated.reg_poison_branches = [] := by decide
+
+/-- **`get_*_handles` is one `visit_*` filling a fresh map** (`Registry.handles`), the three copies the same text -/
+theorem src_handles_forward :
+    Generated.reg_handles_copies_identical = true
+    ∧ Generated.reg_handles_calls = [["visit_counters"], ["visit_gauges"], ["visit_histograms"]]
+    ∧ Generated.reg_handles_body
+        = "{ let mut KIND = HashMap::new(); self.visit_KIND(|k, v| { KIND.insert(k.clone(), v.clone()); }); KIND }" := by
+  decide
+
 
 /-- **every lock section waits**: `clear` walks counters, gauges, histograms and takes `write()` on each shard;
     `visit_*` take `read()`, `retain_*` and `delete_*` `write()`, `get_*` `read()`, `get_or_create_*` `read()` then
@@ -611,5 +806,57 @@ example :
     let s2 := lrun exKo s1 [1, 0]
     (s1.threads.map (·.pc) = [.sweep .counter 1, .gocOp 0] ∧ visit s1.reg .counter = [((1, 0), 0), ((2, 0), 1)]
       ∧ s2.threads.map (·.pc) = [.done, .done] ∧ visit s2.reg .counter = []) := by decide
+
+/-! ### two hashes: the negation, with its witness -/
+
+/-- a key type as in `exKo`, whose entries are filed under another hash than lookups use (e.g. a `Hashable` impl with
+    `type Hasher = SomethingElse` and the trait's default `hashable()`); equal keys still agree on BOTH hashes -/
+def exSo : StoreOps (Nat × Nat) := { ko := exKo, storeHash := fun a => a.1 % 3 + 4 }
+
+theorem exSo_split : Split exSo := by
+  intro k k' _
+  simp only [exSo, exKo]
+  omega
+
+/-- **"at most one storage per key" is FALSE of the registry for such a key type** (witness replayed on the real
+    code on every run, harness stream T): the same key registered twice gets two storages, is visited twice, `get_*`
+    does not find it, `delete_*` answers `false`, and the snapshot map silently keeps one of the two storages -/
+theorem at_most_one_entry_fails_two_hash :
+    ¬ (∀ (so : StoreOps (Nat × Nat)), KeyLaws so.ko → (∀ a b, so.ko.eqv a b = true → so.storeHash a = so.storeHash b) →
+        ∀ (ops : List (Op (Nat × Nat))) (k : Nat × Nat),
+          (entries (runOpsS so (Reg.new 4) ops).1 .counter).countP (fun e => so.ko.eqv k e.key) ≤ 1) := by
+  intro h
+  have := h exSo exLaws (by intro a b hab; simp only [exSo, exKo, beq_iff_eq] at hab; simp only [exSo, hab])
+    [.goc .counter (0, 0), .goc .counter (0, 1)] (0, 0)
+  revert this
+  decide
+
+
+/-- the witness in full (replayed on the real registry on every run: harness stream T) -/
+example :
+    (runOpsS exSo (Reg.new 4)
+      [.goc .counter (0, 0), .goc .counter (0, 1), .visit .counter, .get .counter (0, 0), .delete .counter (0, 0),
+       .handles .counter, .clear, .visit .counter]).2
+    = [.id 0, .id 1, .listing [((0, 0), 0), ((0, 1), 1)], .opt none, .bool false,
+       .listing [((0, 0), 1)], .unit, .listing []] := by decide
+
+/-- the same keys filed under their lookup hash: the one-hash model, one storage -/
+example :
+    (runOpsS { ko := exKo, storeHash := exKo.hash } (Reg.new 4)
+      [.goc .counter (0, 0), .goc .counter (0, 1), .visit .counter, .get .counter (0, 0), .delete .counter (0, 0)]).2
+    = [.id 0, .id 0, .listing [((0, 0), 0)], .opt (some 0), .bool true] := by decide
+
+/-- `clear_removes_older` is not vacuous: a recorder creates key 1 and is parked inside `op` under the WRITE lock
+    of its shard when `clear()` is called (2 storages made so far); `clear` empties shard 0 and waits at shard 1;
+    meanwhile another thread registers a key in the already swept shard 0 (storage 2); the recorder leaves; `clear`
+    finishes.  The call has returned, the entry made during the call is still registered (ids ≥ 2 may stay), nothing
+    older is. -/
+example :
+    let r0 := (runOps exKo (Reg.new 4) [.goc .counter (2, 0)]).1
+    let s0 : LSys (Nat × Nat) :=
+      lrun exKo { LSys.init 4 [[.clear], [.goc .counter (1, 0)], [.goc .counter (0, 0)]] with reg := r0 } [1, 1, 1, 0]
+    let s1 := lrun exKo s0 [0, 2, 2, 2, 2, 1, 0]
+    (s0.threads.map (·.pc) = [.sweep .counter 0, .gocOp 1, .start] ∧ s0.reg.next = 2
+      ∧ s1.threads.map (·.pc) = [.done, .done, .done] ∧ visit s1.reg .counter = [((0, 0), 2)]) := by decide
 
 end MetricsVerif.C06
